@@ -1,7 +1,7 @@
 (* C05 — the query parser: what is proved about acceptance.  Statements only. *)
 From Coq Require Import List.
 From GQL.model Require Import Base Utf8 Lexer Ast Parser Prog ParseQuery.
-From GQL.proofs Require Import ParserTotal.
+From GQL.proofs Require Import ParserTotal NumberGrammar TypeRoundtrip TokenStream JsonRoundtrip ParseComplete.
 Import ListNotations.
 
 (* Acceptance is a statement about the whole string: a document is returned only after the parser
@@ -26,3 +26,53 @@ Example C05_nonvacuous :
   end
   /\ parseQuery dev_none 0 (b "{ a } }") = PErr (PSyntax 1 7).
 Proof. vm_compute. repeat split; reflexivity. Qed.
+
+(* Completeness and determinism against the grammar, layout-free.  flat_doc q is the token sequence
+   the grammar of executable documents assigns to the tree q (operation keyword, optional name,
+   variable definitions with types, default values and directives, directives, selection sets with
+   aliases, arguments, fragment spreads and inline fragments; fragment definitions; values to any
+   depth).  toks d input ts: the lexer reads the text input as exactly the tokens ts (kinds and
+   values) and then the end of the input — however the tokens are separated (blanks, commas, line
+   ends, comments, BOM).  Then the parser returns a document, and that document is q (positions
+   erased): every derivable document is accepted, and no text whose tokens are those of q is read
+   as anything else.
+   doc_wok: what a tree must satisfy to be in the grammar at all (an operation has an operation type
+   and a non-empty selection set; a fragment spread is not named `on`; enum values are not
+   true/false/null and conversely; const positions hold no variable, unless /repo's deviation F_Q1
+   admits it; a fragment definition has variable definitions only where /repo's deviation F_Q4
+   admits them; the empty document only under F_Q3).  fuel bounds nesting and list lengths
+   (query_fuel input = 2*|input|+8 always suffices, since every level and every element costs a
+   token). *)
+Theorem C05_grammatical_documents_are_parsed : forall d q input fuel,
+  doc_wok d q -> toks d input (flat_doc q) -> (doc_depth q <= fuel)%nat -> (doc_width q < fuel)%nat ->
+  exists q' s, parseQueryWith d fuel 0 input = (POk q', s) /\ erase_qdoc q' = erase_qdoc q.
+Proof. exact parseQuery_complete. Qed.
+Print Assumptions C05_grammatical_documents_are_parsed.
+
+(* the same for every production on its own, in front of any continuation (here: selections) *)
+Theorem C05_selections_are_parsed : forall d F c, sel_wok c -> forall fuel s rest,
+  (sel_depth c <= fuel)%nat -> (sel_width c < F)%nat -> sfol (fk rest) -> stream d s (flat_sel c ++ rest) ->
+  exists c' s1, run d (parseSelection d fuel) F s = (c', s1) /\ erase_sel c' = erase_sel c /\ stream d s1 rest.
+Proof. exact parse_selection. Qed.
+Print Assumptions C05_selections_are_parsed.
+
+(* the hypotheses are satisfiable: `query{a}`, with a blank, a comma and a line end thrown in *)
+Example C05_grammar_nonvacuous :
+  let q := mkQDoc [mkOp OpQuery [] [] [] [SField (b "a") (b "a") [] [] [] pos0] pos0] [] None in
+  doc_wok dev_none q /\ flat_doc q = [(Name, b "query"); (BraceL, []); (Name, b "a"); (BraceR, [])]
+  /\ toks dev_none (b "query {a," ++ [10%N] ++ b "}") (flat_doc q).
+Proof.
+  split; [|split; [reflexivity|]].
+  - split; [|left; discriminate]. constructor; [|constructor]. unfold qdef_wok, op_wok. cbn [o_op o_vars o_dirs o_sels].
+    split; [discriminate|]. split; [constructor|]. split; [constructor|]. split; [discriminate|].
+    constructor; [|constructor]. cbn [sel_wok]. split; [constructor|]. split; [constructor|exact I].
+  - assert (Hn : forall c tl, is_name_start c = true -> forallb is_name_cont tl = true -> name_text (c :: tl))
+      by (intros c tl H1 H2; exists c, tl; auto).
+    apply (toks_name dev_none (b "query")); [apply Hn; reflexivity|reflexivity|].
+    apply (toks_ign dev_none [32%N]); [constructor; [right; left; reflexivity|constructor]|].
+    apply (toks_punct dev_none 123%N BraceL); [reflexivity|discriminate|discriminate|discriminate|].
+    apply (toks_name dev_none (b "a")); [apply Hn; reflexivity|reflexivity|].
+    apply (toks_ign dev_none [44%N; 10%N]); [constructor; [right; right; left; reflexivity|constructor; [right; right; right; reflexivity|constructor]]|].
+    apply (toks_punct dev_none 125%N BraceR); [reflexivity|discriminate|discriminate|discriminate|].
+    apply toks_eof.
+Qed.
